@@ -494,6 +494,15 @@ func (m *Machine) convert(from, to types.Type, v Value) Value {
 					}
 					return r
 				}
+				if x, ok := v.(*sym.Str); ok {
+					// symbolic strings are ASCII (every class of vxStr is): one rune per byte
+					n := int(m.Concretize(x.Len, false))
+					r := make(Slice, n)
+					for i := 0; i < n; i++ {
+						r[i] = m.normScalar(c.Zext(x.Ch[i], 32))
+					}
+					return r
+				}
 			}
 		}
 	}
